@@ -54,7 +54,15 @@ func NewGsfaReader(indexRootDir string) (*GsfaReader, error) {
 		index.ll = ll
 	}
 	{
-		man, err := manifest.NewManifest(filepath.Join(indexRootDir, "manifest"), indexmeta.Meta{})
+		manifestPath := filepath.Join(indexRootDir, "manifest")
+		// NewManifest creates a missing manifest and starts an empty one afresh: right for the
+		// writer, but a reader must not take a lost or truncated-to-zero manifest for a valid one.
+		if st, err := os.Stat(manifestPath); err != nil {
+			return nil, fmt.Errorf("error while opening manifest: %w", err)
+		} else if st.Size() == 0 {
+			return nil, fmt.Errorf("manifest %s is empty", manifestPath)
+		}
+		man, err := manifest.NewManifest(manifestPath, indexmeta.Meta{})
 		if err != nil {
 			return nil, err
 		}
